@@ -133,6 +133,12 @@ def run(ctx: common.Ctx):
                 extra = extra - known
                 if not extra:
                     continue
+            d_ = r['desc']
+            if key is None and kind in ('fusion', 'combo') and d_.get('breakpoint_tx') is not None and any(
+                    s_ + 3 == d_['breakpoint_tx'] for s_ in d_.get('donor_sec', [])):
+                # a donor Sec codon that ends exactly at the breakpoint is read as a stop: peptides
+                # ending in front of it are reported although the fused transcript reads U there
+                key = 'sec-codon-ends-at-fusion-breakpoint'
             ctx.add_violation(
                 f'{len(extra)} reported {kind} peptide(s) are not products of the backbone carrying one '
                 f'compatible combination of the records, e.g. {sorted(extra)[:3]} (headers '
